@@ -84,6 +84,19 @@ class C05(core.Check):
                     if [id(o) for o in reg] != [id(o) for o in want]:
                         verdict = ('active-registry', w.lines[-1], [w.ordinal(o) for o in reg], [w.ordinal(o) for o in want])
             if oracle and verdict is None:
+                # an executed order is recorded in exactly one trade (closed or under construction), other orders in none
+                st = w.s.store.completed_trades
+                count = {}
+                for t_ in list(st.trades) + [t for t in st.tempt_trades.values() if t is not None]:
+                    for o in t_.orders:
+                        count[id(o)] = count.get(id(o), 0) + 1
+                for k, o in enumerate(w.s.orders):
+                    want = 1 if o.status == 'EXECUTED' else 0
+                    if count.get(id(o), 0) != want:
+                        verdict = ('executed-order-not-in-exactly-one-trade', w.lines[-1],
+                                   {'order': k, 'status': o.status, 'times_recorded': count.get(id(o), 0)}, want)
+                        break
+            if oracle and verdict is None:
                 for k, o in enumerate(w.s.orders):
                     prev = seen_status.get(k, 'ACTIVE')
                     if prev != 'ACTIVE' and o.status != prev:
